@@ -383,7 +383,7 @@ func (e *c07Env) c07PoisonSign(r *rand.Rand) {
 // ones it can, given to a co-signer or to a signature the note already carries. Sign may refuse; when
 // it returns a message, the holder of the good signer's key must be able to open it and get the text
 // back ("signing with any set of signers and opening ... returns the same text").
-var c07OddNameList = []string{"witness\xff", "x\xc3", "\xe2\x80", "a b", "a+b", "", "nbsp\u00a0x", "tab\tname", "nl\nname", "em\u2003sp", "ok-name", "名前", "é", "\ufffd", "a\u200bb"}
+var c07OddNameList = []string{"witness\xff", "x\xc3", "\xe2\x80", "a b", "a+b", "", "nbsp\u00a0x", "tab\tname", "nl\nname", "em\u2003sp", " lead", "\u00a0lead", "\n\n\u2014 odd", "\u3000x", "trail ", "ok-name", "名前", "é", "\ufffd", "a\u200bb"}
 
 func (e *c07Env) c07OddNames(r *rand.Rand, id, text string) {
 	c := e.c
@@ -432,6 +432,13 @@ func (e *c07Env) c07OddNames(r *rand.Rand, id, text string) {
 			return
 		}
 		c.Class("oddname:" + how + ":" + kind + ":sign-refused")
+		return
+	}
+	if kind == "uncarriable" {
+		// "The server name must be non-empty, well-formed UTF-8 containing neither Unicode spaces nor
+		// plus": a message with such a name in a signature line is not a signed note, whoever wrote it
+		ctx["msg"] = mon.QS(string(msg))
+		c.Violation("sign-accepts-a-name-the-format-cannot-carry", id, ctx)
 		return
 	}
 	var got *note.Note
